@@ -26,7 +26,7 @@ theorem sim_post_absent {cfg : Cfg} {d d' : RState} {m : Mon} {o : Obs} (hs : Si
   have fin : ∀ (st1 : State) (E : Sess) (status : St) (hdr : Option Name) (log : List LogEnt),
       modelOp d (.post .absent u kind) = some { st := st1, status := status, hdr := hdr, hang := false, done := [], log := log, pend := d.pend, nslow := (if kind == .slow then d.nslow + 1 else d.nslow), nasync := (if kind == .slow then d.nasync else d.nasync + 1), released := d.released } →
       settle st1 = withNew d.st E → Inv st1 →
-      E.id = d.st.next → E.owner = u.user → EOk cfg d.st.now 0 0 E →
+      E.id = d.st.next → E.owner = u.user → EOk cfg d.st.now 0 0 E → E.upl = 0 →
       ((E.removed = false ∧ E.closing = false ∧ (cfg.timeout ≠ 0 → E.timer = .armed (d.st.now + cfg.timeout)) ∧
           kind = .init ∧ status.accepted2xx = true ∧ hdr = some (sname d.st.next)) ∨
         (E.removed = true ∧ (hdr = none ∨ hdr = some (sname d.st.next)))) →
@@ -36,9 +36,9 @@ theorem sim_post_absent {cfg : Cfg} {d d' : RState} {m : Mon} {o : Obs} (hs : Si
       (∀ h, hdr = some h → isInitKind (some kind) = true ∧ status.accepted2xx = true) →
       (kind = .init → status.accepted2xx = true → hdr.isSome = true) →
       (monStep cfg m (.post .absent u kind) o).viol = none ∧ Sim cfg d' (monStep cfg m (.post .absent u kind) o).mon := by
-    intro st1 E status hdr log hmo hset hinv1 hEid hEo hEok hE hacc hlog hmint hnoid
+    intro st1 E status hdr log hmo hset hinv1 hEid hEo hEok hEu hE hacc hlog hmint hnoid
     have hinv2 : Inv (withNew d.st E) := by rw [← hset]; exact settle_inv hinv1
-    apply sim_append_op (r := { verb := .post, ref := .absent, user := u, kind := some kind }) (E := E) hs hreq rfl rfl hmo hset rfl rfl rfl rfl rfl hinv2 hEid hEo hEok
+    apply sim_append_op (r := { verb := .post, ref := .absent, user := u, kind := some kind }) (E := E) hs hreq rfl rfl hmo hset rfl rfl rfl rfl rfl hinv2 hEid hEo hEok hEu
     · rcases hE with ⟨a, b, c, dd, e, f⟩ | h
       · left; exact ⟨a, b, c, by rw [dd], e, f, rfl⟩
       · right; exact h
@@ -78,6 +78,7 @@ theorem sim_post_absent {cfg : Cfg} {d d' : RState} {m : Mon} {o : Obs} (hs : Si
     · exact f1
     · exact f2
     · exact f3
+    · rfl
     · right; exact ⟨f4, Or.inl rfl⟩
     · simp [hs.effFaults_after.2.2, hcf]
     · exact chkLog_nil _ _ _
@@ -110,6 +111,7 @@ theorem sim_post_absent {cfg : Cfg} {d d' : RState} {m : Mon} {o : Obs} (hs : Si
       · exact f1
       · exact f2
       · exact f3
+      · exact created_upl _ _ _ _ _ _
       · right
         simp only [Bool.false_eq_true, and_false, if_false] at f4
         exact ⟨f4, Or.inl rfl⟩
@@ -138,6 +140,7 @@ theorem sim_post_absent {cfg : Cfg} {d d' : RState} {m : Mon} {o : Obs} (hs : Si
       · exact f1
       · exact f2
       · exact f3
+      · exact created_upl _ _ _ _ _ _
       · by_cases hk : kind = .init
         · subst hk
           simp only [PKind.kind, and_self, if_true] at f4
@@ -173,16 +176,16 @@ theorem sim_postx {cfg : Cfg} {d d' : RState} {m : Mon} {o : Obs} (hs : Sim cfg 
   have fin : ∀ (st1 : State) (E : Sess) (status : St) (hdr : Option Name),
       modelOp d (.postx u kind) = some { st := st1, status := status, hdr := hdr, hang := false, done := [], log := [], pend := d.pend, nslow := (if kind == .slow then d.nslow + 1 else d.nslow), nasync := (if kind == .slow then d.nasync else d.nasync + 1), released := d.released } →
       settle st1 = withNew d.st E → Inv st1 →
-      E.id = d.st.next → E.owner = u.user → EOk cfg d.st.now 0 0 E → E.removed = true →
+      E.id = d.st.next → E.owner = u.user → EOk cfg d.st.now 0 0 E → E.upl = 0 → E.removed = true →
       (hdr = none ∨ hdr = some (sname d.st.next)) →
       (status.accepted2xx || (kind != .notif && (effFaults cfg m).reqOpen && status == .code 500) ||
         ((effFaults cfg m).connOpen && status == .code 500)) = true →
       (∀ h, hdr = some h → isInitKind (some kind) = true ∧ status.accepted2xx = true) →
       (kind = .init → status.accepted2xx = true → hdr.isSome = true) →
       (monStep cfg m (.postx u kind) o).viol = none ∧ Sim cfg d' (monStep cfg m (.postx u kind) o).mon := by
-    intro st1 E status hdr hmo hset hinv1 hEid hEo hEok hrm hh hacc hmint hnoid
+    intro st1 E status hdr hmo hset hinv1 hEid hEo hEok hEu hrm hh hacc hmint hnoid
     have hinv2 : Inv (withNew d.st E) := by rw [← hset]; exact settle_inv hinv1
-    apply sim_append_op (r := { verb := .post, ref := .absent, user := u, kind := some kind, racy := true }) (E := E) hs hreq rfl rfl hmo hset rfl rfl rfl rfl rfl hinv2 hEid hEo hEok
+    apply sim_append_op (r := { verb := .post, ref := .absent, user := u, kind := some kind, racy := true }) (E := E) hs hreq rfl rfl hmo hset rfl rfl rfl rfl rfl hinv2 hEid hEo hEok hEu
       (Or.inr ⟨hrm, hh⟩)
     · simp only [chkAnswer, hs.stateful, Bool.false_eq_true, if_false, Ref.name, beq_self_eq_true, if_true, Bool.true_and]
       have h1 : ((Verb.post == Verb.other) = false) := rfl
@@ -219,6 +222,7 @@ theorem sim_postx {cfg : Cfg} {d d' : RState} {m : Mon} {o : Obs} (hs : Sim cfg 
     · exact f1
     · exact f2
     · exact f3
+    · rfl
     · exact f4
     · left; rfl
     · simp [hs.effFaults_after.2.2, hcf]
@@ -255,7 +259,7 @@ theorem sim_postx {cfg : Cfg} {d d' : RState} {m : Mon} {o : Obs} (hs : Sim cfg 
       have hresp : postResp d.st kind.kind (if kind.kind.isInitialize then some d.st.next else none) true = .storeRefused 500 := by
         simp [postResp, hacc, stStoreOpenFailed, Generated.Sessions.storeOpenFailed]
       rw [hresp] at hpub
-      apply fin _ _ (.code 500) none ?_ hsettle (doL_inv (step_inv hinv1 hpub) _) f1 f2 f3 f4 (Or.inl rfl)
+      apply fin _ _ (.code 500) none ?_ hsettle (doL_inv (step_inv hinv1 hpub) _) f1 f2 f3 (racy_upl _ _ _ _ _ _) f4 (Or.inl rfl)
       · rw [kind_hasCall] at hacc'
         simp [hs.effFaults_after.2.1, hacc'.1, hacc'.2]
       · intro h hh; cases hh
@@ -267,7 +271,7 @@ theorem sim_postx {cfg : Cfg} {d d' : RState} {m : Mon} {o : Obs} (hs : Sim cfg 
         simp [postResp, hacc]
       rw [hresp] at hpub
       apply fin _ _ (.code 200) ((if kind.kind.isInitialize then some d.st.next else none).map sname) ?_ hsettle
-        (doL_inv (step_inv hinv1 hpub) _) f1 f2 f3 f4
+        (doL_inv (step_inv hinv1 hpub) _) f1 f2 f3 (racy_upl _ _ _ _ _ _) f4
       · cases kind.kind.isInitialize <;> simp
       · simp [St.accepted2xx]
       · intro h hh
